@@ -775,6 +775,22 @@ def run(rep: vlib.Reporter, tier: str, seed: int) -> None:
         Flight.stop()
     t_val = time.time()
 
+    # ---------------- the Flight round trip follows the CURRENT data of the uploading object (harness/c14_flight.py) ----------------
+    try:
+        from harness import c14_flight
+        from harness.orch import stop_flight_server
+        fl_probs, fl_info = c14_flight.check(seed, 240 if big else 45)
+        stop_flight_server()
+        rep.add("flight_round_trip_histories", {**fl_info, "problems": len(fl_probs)})
+        rep.count(fl_info["round_trips"])
+        rep.nontrivial(("flight_hist", fl_info["histories"]))
+        for p_ in fl_probs[:8]:
+            rep.finding(f"flight-roundtrip:{p_['framework']}:{p_['reader']}:{json.dumps(p_['history'])[:160]}",
+                        "moving a dataset through the Flight store (upload_table -> download_table -> convert_flyserver_data_back): " + p_["what"], p_)
+            found = True
+    except Exception as e:  # noqa: BLE001
+        rep.notes.append(f"flight round-trip histories not run: {type(e).__name__}: {str(e)[:160]}")
+
     # ---------------- T2c: the value MODEL (Model/ValueConv.v) against the real conversions, inside Coq ----------------
     found = c14_conv.run_tie(rep, seed, big, _LAST_TABLES) or found
 
@@ -966,6 +982,13 @@ def replay(path: str) -> int:
     r = json.load(open(path))["replay"]
     print(json.dumps(r, indent=1, ensure_ascii=True)[:3000])
     c14_gen.import_implementations()
+    if r.get("kind") == "flight_roundtrip":
+        from harness import c14_flight
+        from harness.orch import stop_flight_server
+        probs, info = c14_flight.check(0, 60)
+        stop_flight_server()
+        print(info, [p_["what"] for p_ in probs[:3]])
+        return 1 if probs else 0
     if r.get("kind") == "value":
         if r["mode"].startswith("e2e:"):
             rec = e2e_run(r["table"], r["f1"], r["variant"], r["f2"], r["mode"].split(":")[1])
